@@ -35,6 +35,8 @@ pub struct BInst {
     pub vals: HashMap<(String, String), Value>,
     pub footer: String,
     pub assertion: String,
+    pub footer2: String,
+    pub assertion2: String,
     pub via: Via,
 }
 
@@ -80,7 +82,7 @@ pub fn make_binst(r: &mut StdRng, variant: usize) -> BInst {
         keys.insert(k.to_string(), k.to_string());
     }
     // custom keys: plain, unicode, with escapes, long
-    let customs: [(&str, &str); 11] = [
+    let customs: [(&str, &str); 14] = [
         (" lead", "trail "),
         ("\tboth\n", "\u{a0}nbsp"),
         ("id", "id\n"),
@@ -92,6 +94,9 @@ pub fn make_binst(r: &mut StdRng, variant: usize) -> BInst {
         ("a\"quote", "b\\slash"),
         ("😀", "a b"),
         ("Exp", "EXP "),
+        ("exp ", " iat"),
+        ("nbf\n", "\texp"),
+        ("iss ", " sub"),
     ];
     let (ca, cb) = if variant % 7 >= 4 { customs[0] } else { customs[variant % customs.len()] };
     keys.insert("ca".into(), if variant % 11 == 10 && variant % 7 < 4 { "x".repeat(1024) } else { ca.to_string() });
@@ -155,8 +160,29 @@ pub fn make_binst(r: &mut StdRng, variant: usize) -> BInst {
         keys,
         vals,
         footer: foots[variant % foots.len()].to_string(),
+        footer2: ["kid-12", "{\"kid\":\"k2\"}", "e", " ", "ab?"][variant % 5].to_string(),
         assertion: format!("assert-{}", variant),
+        assertion2: ["assert", " ", "Assert-0", "\u{e9}"][variant % 4].to_string(),
         via: if (variant / 3) % 2 == 0 { Via::Typed } else { Via::Any },
+    }
+}
+
+impl BInst {
+    pub fn footer_named(&self, n: &str) -> Option<String> {
+        match n {
+            "none" => None,
+            "empty" => Some(String::new()),
+            "f2" => Some(self.footer2.clone()),
+            _ => Some(self.footer.clone()),
+        }
+    }
+    pub fn assertion_named(&self, n: &str) -> Option<String> {
+        match n {
+            "none" => None,
+            "empty" => Some(String::new()),
+            "a2" => Some(self.assertion2.clone()),
+            _ => Some(self.assertion.clone()),
+        }
     }
 }
 
@@ -201,8 +227,8 @@ pub fn run_behaviour(pr: Proto, beh: &Beh, inst: &BInst, km: &KeyMat, book: &mut
             "ack" => bops.push(BOp::Ack),
             // time passes between two calls (the defaults stay those of the creation instant)
             "tick" => bops.push(BOp::Sleep(1100)),
-            "footer" => bops.push(BOp::SetFooter(inst.footer.clone())),
-            "assertion" => bops.push(BOp::SetAssertion(inst.assertion.clone())),
+            "footer" => bops.push(BOp::SetFooter(inst.footer_named(&o.v).unwrap_or_default())),
+            "assertion" => bops.push(BOp::SetAssertion(inst.assertion_named(&o.v).unwrap_or_default())),
             "build" => bops.push(BOp::Build),
             _ => {}
         }
@@ -214,15 +240,25 @@ pub fn run_behaviour(pr: Proto, beh: &Beh, inst: &BInst, km: &KeyMat, book: &mut
     let t1 = CREATED.with(|c| *c.borrow()).unwrap_or_else(OffsetDateTime::now_utc);
     let mut outs = outs.into_iter();
     // footer / assertion in force at each build
-    let mut footer: Option<&str> = None;
-    let mut assertion: Option<&str> = None;
+    let mut footer_s: Option<String> = None;
+    let mut assertion_s: Option<String> = None;
+    let mut fname = "none".to_string();
+    let mut aname = "none".to_string();
     let mut annotated = vec![];
     for o in &beh.ops {
         match o.op.as_str() {
-            "footer" => footer = Some(inst.footer.as_str()),
-            "assertion" if pr.has_assertion() => assertion = Some(inst.assertion.as_str()),
+            "footer" => {
+                footer_s = inst.footer_named(&o.v);
+                fname = if o.v == "empty" { "none".into() } else { o.v.clone() };
+            }
+            "assertion" if pr.has_assertion() => {
+                assertion_s = inst.assertion_named(&o.v);
+                aname = if o.v == "empty" { "none".into() } else { o.v.clone() };
+            }
             _ => {}
         }
+        let mut footer: Option<&str> = footer_s.as_deref();
+        let mut assertion: Option<&str> = assertion_s.as_deref();
         if o.op != "build" {
             annotated.push(json!({"op": o.op, "k": o.k, "v": o.v}));
             continue;
@@ -240,7 +276,31 @@ pub fn run_behaviour(pr: Proto, beh: &Beh, inst: &BInst, km: &KeyMat, book: &mut
                         }
                     }
                 }
-                // read the token back at the core layer (independent of the parser layer)
+                // C05 / C06: which footer / assertion is the token bound to?  First the pair set last on the
+                // builder; if that does not authenticate, every pair of the instance's values
+                let mut bound = (fname.clone(), if pr.has_assertion() { aname.clone() } else { "na".to_string() });
+                let cand_f: Vec<(String, Option<String>)> = ["none", "f1", "f2"].iter().map(|n| (n.to_string(), inst.footer_named(n))).collect();
+                let cand_a: Vec<(String, Option<String>)> = if pr.has_assertion() {
+                    ["none", "a1", "a2"].iter().map(|n| (n.to_string(), inst.assertion_named(n))).collect()
+                } else {
+                    vec![("na".to_string(), None)]
+                };
+                let mut alt_pair: Option<(Option<String>, Option<String>)> = None;
+                if !present(pr, Layer::Generic, &tok, km, footer, assertion).0.is_ok() {
+                    'scan: for (fnm, fv) in &cand_f {
+                        for (anm, av) in &cand_a {
+                            if present(pr, Layer::Generic, &tok, km, fv.as_deref(), av.as_deref()).0.is_ok() {
+                                bound = (fnm.clone(), anm.clone());
+                                alt_pair = Some((fv.clone(), av.clone()));
+                                break 'scan;
+                            }
+                        }
+                    }
+                }
+                if let Some((fv, av)) = &alt_pair {
+                    footer = fv.as_deref();
+                    assertion = av.as_deref();
+                }
                 // read the token back through the matching GenericParser (no expectations)
                 match present(pr, Layer::Generic, &tok, km, footer, assertion).0 {
                     Out::Ok(parsed) => match parsed {
@@ -313,7 +373,8 @@ pub fn run_behaviour(pr: Proto, beh: &Beh, inst: &BInst, km: &KeyMat, book: &mut
                                     std::thread::sleep(std::time::Duration::from_millis(3));
                                 }
                             }
-                            json!({"res": "ok", "key": "-", "payload": payload, "nonce": nonce.0, "nseen": nonce.1, "pread": pread})
+                            json!({"res": "ok", "key": "-", "payload": payload, "nonce": nonce.0, "nseen": nonce.1, "pread": pread,
+                                   "bound": {"f": bound.0, "a": bound.1}})
                         }
                         _ => json!({"res": "unreadable", "key": "-", "payload": [], "nonce": 0, "nseen": 0, "detail": "payload is not a JSON object"}),
                     },
@@ -393,7 +454,13 @@ pub fn nonce_drive(pr: Proto, layer: &str, n: usize, seed: u64) -> Vec<String> {
     let mut r = conc::rng(seed, &format!("nonce-{}-{}", pr.name(), layer));
     let mut book = NonceBook::default();
     let km = conc::random_keymat(&mut r, 0);
-    let inst = make_binst(&mut r, 0);
+    let mut inst = make_binst(&mut r, 0);
+    // footers / assertions of every length class next to the 24 / 32 bytes of a nonce (a nonce that is partly
+    // a function of caller input shows as a repeat or as a constant bit)
+    let footers: Vec<String> = vec![
+        "kid-1".into(), "k".repeat(31), "k".repeat(32), "k".repeat(33), "{\"kid\":\"k4.lid.iVtYQDjr5gEijCSjJC3fQaJm7nCeQSeaty0Jixy8dbsk\"}".into(),
+        "x".repeat(64), "".into(), "y".repeat(1024), "\u{e9}".repeat(16), "z".repeat(24),
+    ];
     let mut lines = vec![];
     let per_obj = 250.min(n / 2).max(1);
     let mut done = 0usize;
@@ -404,7 +471,12 @@ pub fn nonce_drive(pr: Proto, layer: &str, n: usize, seed: u64) -> Vec<String> {
         AOp { op: "footer".into(), k: "".into(), v: "f1".into() },
     ];
     while done < n / 2 {
+        inst.footer = footers[obj % footers.len()].clone();
+        inst.assertion = footers[(obj / 2 + 3) % footers.len()].clone();
         let mut ops = prefix.clone();
+        if pr.has_assertion() && obj % 3 != 0 {
+            ops.push(AOp { op: "assertion".into(), k: "".into(), v: "a1".into() });
+        }
         if obj % 2 == 1 {
             // varying claims between the builds of one builder
             for j in 0..per_obj {
@@ -429,6 +501,7 @@ pub fn nonce_drive(pr: Proto, layer: &str, n: usize, seed: u64) -> Vec<String> {
         obj += 1;
     }
     while done < n {
+        inst.footer = footers[obj % footers.len()].clone();
         let mut ops = prefix.clone();
         ops.push(build.clone());
         let beh = Beh { layer: layer.into(), ops };
